@@ -375,6 +375,24 @@ type LDeep2 struct {
 	N  int
 }
 
+// LWithAnon / LWithAnon2 hold an anonymous struct with an unexported member: declared in the home package, so the
+// member is accessible there (":map Anon.x A" must resolve).
+type LWithAnon struct {
+	N    int
+	Anon struct {
+		x int
+		Y string
+	}
+}
+
+type LWithAnon2 struct {
+	N    int64
+	Anon struct {
+		x int
+		Y string
+	}
+}
+
 // LForeign is a local type whose underlying struct (and its unexported member) comes from package ext.
 type LForeign ext.Inner
 
@@ -497,6 +515,8 @@ var Alphabet = []TypeAtom{
 	{"ext.Record2", "Record2", "struct-imported-with-indirect-member"},
 	{"LDeep", "", "struct-local-deep"},
 	{"LDeep2", "", "struct-local-deep"},
+	{"LWithAnon", "", "struct-local-anon-member"},
+	{"LWithAnon2", "", "struct-local-anon-member"},
 	{"LInnerG", "", "struct-local-getter-names"},
 	{"ext.InnerG", "InnerG", "struct-imported-getter-names"},
 	// unnamed composite element types that mention a named type (the element type is printed as a whole)
